@@ -79,6 +79,9 @@ func genCliGeneral(v6 bool) *rapid.Generator[cliScenario] {
 			d := cliDeliver{At: evTick(rapid.IntRange(0, horizon).Draw(t, "at")), Xid: rapid.IntRange(0, 2).Draw(t, "dxid"), Typ: rapid.SampledFrom(types).Draw(t, "typ"), Serial: serial}
 			serial++
 			d.Kind = rapid.SampledFrom([]int{dgGood, dgGood, dgGood, dgGood, dgGood, dgGood, dgWrongXid, dgWrongHW, dgWrongOp, dgRelayType, dgGarbage, dgEmpty, dgHWEmpty, dgHWPrefix, dgHWExtended, dgHWLong}).Draw(t, "kind")
+			if rapid.IntRange(0, 39).Draw(t, "readerr") == 0 {
+				d.Kind = dgReadError
+			}
 			d.Op = rapid.SampledFrom([]uint8{1, 3, 0, 255, 2}).Draw(t, "op")
 			d.HType = rapid.SampledFrom([]uint8{0, 0, 0, 1, 6, 32, 255}).Draw(t, "htype")
 			d.PadTo = rapid.SampledFrom([]int{0, 0, 0, 0, 576, 1499, 1500}).Draw(t, "padto")
@@ -167,7 +170,7 @@ func genCliBlockedAcross(v6 bool) *rapid.Generator[cliScenario] {
 		at := 1
 		for i := 0; i < n; i++ {
 			d := cliDeliver{At: evTick(at), Xid: c.Xid, Typ: types[1], Serial: i + 1, Kind: dgGood}
-			if i == firstOK {
+			if i == firstOK || (i > firstOK && rapid.IntRange(0, 2).Draw(t, "later") == 0) {
 				d.Typ = c.Want
 			}
 			sc.Dels = append(sc.Dels, d)
@@ -488,6 +491,20 @@ func TestC12_Grid(t *testing.T) {
 				c12.one(t, sc)
 				sc = c12Scenario(v6, 1e6/16, tries, 2, max(0, tries-1), 1)
 				sc.Calls[0].Ctx = ctx
+				c12.one(t, sc)
+			}
+		}
+	}
+	// the socket fails a read (once) at an instant of every try: the schedule of the call in flight, and of a later
+	// call, is what it would be with a silent network
+	for _, v6 := range []bool{false, true} {
+		for _, tries := range []int{1, 3, 4} {
+			for k := 0; k < tries; k++ {
+				sc := c12Scenario(v6, 1e6/16, tries, 1, -1, 0)
+				s := 16 * ((1 << uint(k)) - 1)
+				sc.Dels = []cliDeliver{{At: evTick(s + 5), Kind: dgReadError, Serial: 1}, {At: evTick(s + 9), Kind: dgGood, Xid: sc.Calls[0].Xid, Typ: sc.Calls[0].Want, Serial: 2}}
+				end := 16*((1<<uint(tries))-1) + 16
+				sc.Calls = append(sc.Calls, cliCall{Start: callStart(1, end), Xid: 2, Matcher: 1, Want: sc.Calls[0].Want, CancelAt: -1, Deadline: -1})
 				c12.one(t, sc)
 			}
 		}
